@@ -35,6 +35,7 @@ def fixRel (ss : List Stmt) (s2 : Stmt) : Outcome Nat :=
 
 def pcrJump (s2 : Stmt) (r start : Nat) : Int :=
   let jump : Int := (r : Int) - start - s2.pkg.size
+  let jump : Int := (jump + 0x8000) % 0x10000 - 0x8000
   if s2.pcrHint = 4 then jump % 0x10000 else jump
 
 def fixStep3 (ss : List Stmt) (i : Nat) (s2 : Stmt) : Outcome Stmt :=
